@@ -25,7 +25,10 @@ rc_build=1; rc_seeded=0; bl="skipped"
 if [ "$apply" = ok ]; then
   (cd "$W" && go build ./... ) >> "$log" 2>&1; rc_build=$?
   echo "== demo with change" >> "$log"
-  bash "$seed/run.sh" "$W" >> "$log" 2>&1; rc_seeded=$?
+  bash "$seed/run.sh" "$W" > "$out/demo_with_change.out" 2>&1; rc_seeded=$?
+  cat "$out/demo_with_change.out" >> "$log"
+  # some run.sh scripts do not propagate the test's exit status: judge by the output as well
+  if grep -qE '^(--- FAIL|FAIL|panic:)' "$out/demo_with_change.out"; then rc_seeded=1; fi
   echo "rc=$rc_seeded" >> "$log"
   if [ -z "$skipbl" ]; then
     bl=$(/verif/tools/baseline.sh "$W" 2>&1 | tail -3 | tr '\n' ' ')
